@@ -460,6 +460,36 @@ def run_scale(tier):
         solve.fact('default_scale>0-and-base_step==EPS**(1/scale)[%s,n,order in 1..10]' % method, ok, note=str(bad))
     g = sg.MinStepGenerator(scale=3.0)
     solve.fact('user-scale-overrides-default', g.scale == 3.0 and g.base_step == EPS ** (1 / 3.0))
+    # one generator object used for several (method, n, order): every sequence is the one a fresh generator yields (defaults that
+    # depend on n -- ratio 2 for n = 1 else 1.6, scale, count -- are recomputed per call, nothing is frozen at the first use)
+    lm = mods()['lm']
+    calls = [('forward', 1, 2), ('central', 3, 4), ('complex', 1, 2), ('central', 2, 2), ('forward', 1, 2), ('complex', 4, 4), ('backward', 1, 1),
+             ('central', 4, 2), ('complex', 2, 4), ('forward', 3, 2), ('central', 1, 4)]        # same (method, order), another n
+    for cname, mk in (('Min', lambda: sg.MinStepGenerator()), ('Min(num_steps=5)', lambda: sg.MinStepGenerator(num_steps=5)), ('Max', lambda: sg.MaxStepGenerator()),
+                      ('Min(base_step=0.01)', lambda: sg.MinStepGenerator(base_step=0.01, num_extrap=2)),
+                      ('Min(base_step=array-per-coordinate)', lambda: sg.MinStepGenerator(base_step=np.array([0.01, 0.02]), num_steps=3))):
+        for xv in (0.7, np.array([0.3, -20.0])):
+            if 'array-per-coordinate' in cname and np.ndim(xv) == 0:
+                continue
+            for order_of_calls in (calls, calls[::-1]):
+                shared = mk()
+                bad = None
+                for (m_, n_, o_) in order_of_calls:
+                    got = [np.asarray(s_) for s_ in shared(xv, m_, n_, o_)]
+                    want = [np.asarray(s_) for s_ in mk()(xv, m_, n_, o_)]
+                    g2 = shared.step_generator_function(xv, m_, n_, o_)
+                    if len(got) != len(want) or not all(np.array_equal(a_, b_) for a_, b_ in zip(got, want)) or g2.step_ratio != mk().step_generator_function(xv, m_, n_, o_).step_ratio:
+                        bad = (m_, n_, o_, [float(np.ravel(a_)[0]) for a_ in got[:3]], [float(np.ravel(b_)[0]) for b_ in want[:3]])
+                        break
+                solve.fact('reused-generator==fresh-generator:%s,x=%s,%s' % (cname, 'scalar' if np.ndim(xv) == 0 else 'array', 'forward-order' if order_of_calls is calls else 'reverse-order'),
+                           bad is None, note=str(bad)[:300])
+    # the caller's own array given as base_step is neither modified nor accumulated into
+    user = np.array([0.01, 0.02]); keep = user.copy()
+    gq = sg.MinStepGenerator(base_step=user, num_steps=3)
+    first = [np.array(s_) for s_ in gq(np.array([0.3, -20.0]), 'forward', 1, 2)]
+    second = [np.array(s_) for s_ in gq(np.array([0.3, -20.0]), 'forward', 1, 2)]
+    solve.fact('array-base_step:the-caller-array-is-unchanged-and-a-second-call-yields-the-same-steps', np.array_equal(user, keep) and
+               all(np.array_equal(a_, b_) for a_, b_ in zip(first, second)), note=str((user.tolist(), [a_.tolist() for a_ in second[:1]])))
     g = sg.MaxStepGenerator()
     solve.fact('Max-defaults(base_step=2,num_steps=15,use_exact_steps=False)', g.base_step == 2.0 and g._num_steps == 15 and g.use_exact_steps is False)
     return {}
@@ -516,6 +546,8 @@ def replay_case(ob):
     if mm:
         mdl = ob.get('model') or {}
         return dict(kind='C10.count', method=mm.group(1), hessdiag='Hessdiag' in nm, n=mdl.get('n'), order=mdl.get('order'))
+    if 'reused-generator==fresh-generator' in nm or 'array-base_step:' in nm:
+        return dict(kind='C10.reuse')
     if nm.startswith('loop/'):
         return dict(kind='C10.seq', cls='Max' if 'Max' in nm else 'Min', opt_index=None, method='forward', n=1, order=2)
     return dict(kind='C10.misc')
